@@ -150,6 +150,11 @@ pub struct Hub {
     pub jit_log: Vec<Vec<i128>>,
     /// storage failures are drawn per transaction (all its writes fail or none; its commit fails or not): the order of the
     /// writes inside a transaction then has no influence on which of them fail.  What each operation got is recorded.
+    /// perturbation (implementation only): while a back-off wait of a check is pending the embedder changes an app in the shared
+    /// app set, and puts the old value back when the retry reaches the HTTP client — the check works on the snapshot it took
+    /// at its start, so nothing may show
+    pub mutate_backoff: bool,
+    pub mutated_apps: Option<Vec<App>>,
     pub tx_fail: Option<(bool, bool)>,
     pub sfail_obs: Vec<bool>,
     pub sfail_log: Vec<Vec<bool>>,
@@ -188,7 +193,7 @@ impl Hub {
         Hub { trace: vec![], wall, mono, env: UnitEnv::default(), pending: BTreeMap::new(), committed: BTreeMap::new(),
             released: BTreeSet::new(), next_gate: 0, http_waiting: None, timers: vec![], wakers: vec![], in_check: false, embedder_lock: false,
             backoffs_in_check: 0, jitters: vec![], cup_sign: None, last_uc_request: None, last_etag_sig: None, last_resp_body: None,
-            old_etags: vec![], boundary: None, dropped_timers: vec![], reboot_phase: false, keys: vec![], units: VecDeque::new(), boundaries: vec![], jit_log: vec![], tx_fail: None, sfail_obs: vec![], sfail_log: vec![], during_done: false, http_seen: 0, during_log: vec![], mock: None }
+            old_etags: vec![], boundary: None, dropped_timers: vec![], reboot_phase: false, keys: vec![], units: VecDeque::new(), boundaries: vec![], jit_log: vec![], mutate_backoff: false, mutated_apps: None, tx_fail: None, sfail_obs: vec![], sfail_log: vec![], during_done: false, http_seen: 0, during_log: vec![], mock: None }
     }
     pub fn log(&mut self, s: String) { self.trace.push(s); }
     pub fn boundary_phase_reboot(&self) -> bool { self.reboot_phase }
@@ -341,6 +346,15 @@ impl HTimer {
             let dt = h.env.bdt.pop_front().unwrap_or((0, 0));
             h.tick(dt);
             h.released.insert(g);
+            if h.mutate_backoff && h.mutated_apps.is_none() && for_ms.is_some() {
+                LOCKS.with(|l| if let Some((_, a)) = &*l.borrow() { if let Some(mut set) = a.try_lock() {
+                    h.mutated_apps = Some(set.apps.clone());
+                    for app in set.apps.iter_mut() {
+                        app.cohort.hint = Some("changed-by-the-embedder".into());
+                        app.version = omaha_client::version::Version::from([9, 9, 9, 1]);
+                    }
+                } });
+            }
         }
         drop(h);
         Gate { hub: self.0.clone(), id: g }.boxed()
@@ -477,6 +491,12 @@ impl HttpRequest for HHttp {
     fn request(&mut self, req: hyper::Request<hyper::Body>) -> BoxFuture<'_, Result<hyper::Response<Vec<u8>>, HttpError>> {
         let hub = self.0.clone();
         probe_locks(&mut hub.lock().unwrap(), "H request");
+        {
+            let mut h = hub.lock().unwrap();
+            if let Some(orig) = h.mutated_apps.take() {
+                LOCKS.with(|l| if let Some((_, a)) = &*l.borrow() { if let Some(mut set) = a.try_lock() { set.apps = orig; } });
+            }
+        }
         async move {
             let (parts, body) = req.into_parts();
             let body = hyper::body::to_bytes(body).await.unwrap().to_vec();
